@@ -225,6 +225,11 @@ func runProperty(o *options) int {
 		notes = append(notes, ns...)
 	}
 	sortObligations(all)
+	if o.jsonOut {
+		for _, ob := range all {
+			fmt.Fprintf(os.Stderr, "OBL %s %s | %s @ %s :: %s\n", ob.Verdict, ob.Rule, ob.Construct, ob.Pos, ob.Detail)
+		}
+	}
 
 	// partition
 	var real, fix []Obligation
